@@ -383,7 +383,9 @@ func c02hist(c *ctx, faults string, ops []string) {
 			}
 		}()
 		w := world.NewWorld()
-		p, err := world.NewPipeline(w, world.DefaultOptions())
+		// pseudo op `opt~db=ns/name`: controller option --default-backend-service
+		opt, ops := syncOptions(ops)
+		p, err := world.NewPipeline(w, opt)
 		if err != nil {
 			return "skip:" + sanitize(err.Error())
 		}
@@ -487,6 +489,10 @@ func c02histGen(c *ctx, r *gen.Rng, n int) {
 				out = append(out, "sync")
 			}
 		}
+		if r.Chance(1, 5) {
+			// --default-backend-service: its backend is referenced by no host
+			out = append([]string{"opt~db=" + gen.Pick(r, cfg.Namespaces) + "/" + gen.Pick(r, cfg.Services)}, out...)
+		}
 		faults := "-"
 		if r.Chance(1, 3) {
 			var fs []string
@@ -518,6 +524,9 @@ func runC02(c *ctx) {
 		"sec+d/tls1!tls!1000!a.local+b.local sec+e/tls1!tls!1000!a.local+b.local "+
 		"ing+d/i1@1!haproxy,-!-!a.local>/:Prefix:app:80!a.local>tls1!- ing+e/i2@2!haproxy,-!-!b.local>/:Prefix:app:80!b.local>tls1!- sync "+
 		"sec~d/tls1!tls!1001!a.local+b.local sec~e/tls1!tls!1001!a.local+b.local sync"))
+	// 8f7ea63: the service behind --default-backend-service goes away: no host changes, a reload is needed
+	c02hist(c, "-", strings.Fields("opt~db=d/web svc+d/web!http:80:8080!- ep~d/web!10.0.3.1:r:web-1 svc+d/app!http:80:8080!- ep~d/app!10.0.1.1:r:app-1 "+
+		"ing+d/i1@1!haproxy,-!-!a.local>/a:Prefix:app:80!-!- sync svc-d/web sync"))
 	r := gen.New(c.seed)
 	n := 6000
 	if c.thorough() {
